@@ -11,7 +11,10 @@
 #include <mutex>
 #include <thread>
 
+#include <bxdecay0/dbd_gA.h>
 #include <bxdecay0/decay0_generator.h>
+#include <bxdecay0/mdl_event_op.h>
+#include <memory>
 
 #include "common/vh.h"
 
@@ -66,12 +69,44 @@ static void configure(bxdecay0::decay0_generator & g, const GenCfg & c)
   if (c.emin >= 0) g.set_decay_dbd_esum_range(c.emin, c.emax);
 }
 
-static std::vector<std::string> init_and_shoot(const GenCfg & c, bxdecay0::i_random & prng, int nev)
+// "GATEST": a dbd_gA object (rejection shooter, shipped mock table Test/g0) generating complete events (the two electrons are
+// rotated by the shared helper rotate_zyz); "MDL@<cfg>": the configuration with a momentum-direction-lock operation installed
+static std::vector<std::string> ga_test_events(bxdecay0::i_random & prng, int nev)
 {
   std::vector<std::string> out;
   try {
+    bxdecay0::dbd_gA g;
+    g.set_dataset_version(".");
+    g.set_nuclide("Test");
+    g.set_process(bxdecay0::dbd_gA::PROCESS_G0);
+    g.set_shooting(bxdecay0::dbd_gA::SHOOTING_REJECTION);
+    g.initialize();
+    for (int i = 0; i < nev * 10; i++) {
+      bxdecay0::event ev;
+      g.shoot(prng, ev);
+      out.push_back(vh::fingerprint(ev));
+    }
+  } catch (std::exception & e) {
+    out.push_back(std::string("EXCEPTION ") + e.what());
+  }
+  return out;
+}
+
+static std::vector<std::string> init_and_shoot(const GenCfg & c0, bxdecay0::i_random & prng, int nev)
+{
+  if (c0.txt == "GATEST") return ga_test_events(prng, nev);
+  std::vector<std::string> out;
+  GenCfg c = c0;
+  bool mdl = c0.txt.compare(0, 4, "MDL@") == 0;
+  if (mdl) c = parse_cfg(c0.txt.substr(4));
+  try {
     bxdecay0::decay0_generator g;
     configure(g, c);
+    if (mdl) {
+      auto op = std::make_shared<bxdecay0::momentum_direction_lock_event_op>();
+      op->set(bxdecay0::INVALID_PARTICLE, (c.txt.size() % 2) ? 0 : -1, 0.3, -0.4, 0.8, 0.6, false);
+      g.add_operation(op);
+    }
     g.initialize(prng);
     for (int i = 0; i < nev; i++) {
       bxdecay0::event ev;
